@@ -39,6 +39,10 @@ CLAIMED = {
    text='Coq theorems over an abstract heap model (objects own buffers with versions; every public operation has the effect fresh / in-place-on-target / consume): separation of distinct live objects is invariant under every effect and hence in every reachable state of every finite call history; every object other than the target keeps its value under any operation. The effect table is tied to /repo by a history fuzzer over ~50 public operations (binary operators, all overwrite variants, sweeps, svd/pinv, solvers, integrators, tdmd, arr) that observes the sharing graph (np.shares_memory), dense values, metadata and consistency after every step and tries to turn any aliasing into a visible change by in-place sweeps on rank-1 bonds.',
    note='Trusted: Coq kernel; the hand-written effect table (validated by observation on every run); NumPy/LAPACK memory behaviour is observed, not modelled; objects handed in twice by the caller (t.tensordot(t, overwrite=True)) and the consumed self of svd/pinv(overwrite=True) are outside the pool.',
    technique='Coq invariant proof over call histories (heap state machine) + observed-history correspondence', design='6 C06'),
+ 'C07': dict(
+   text='Coq theorems: Galerkin descent for every Hermitian operator, frame and micro solution (exact excess identity, hence descent with a positive semidefinite form); closed form of the right environments built by sle.py for every order/dims/ranks (conjugation on the operator row index). sle.als and sle.mals (both micro-solvers, thresholds, max ranks) are modelled end to end (stacks, micro matrices and right-hand sides with their index permutations, QR/RQ/SVD updates, loop bounds) and tied to /repo by oracle-tape differential execution on non-symmetric integer operators; side check of descent, monotonicity, fixed point, maximal-rank exactness, dims and ranks against numpy.linalg.solve.',
+   note='PARTIAL: left-stack closed form, the assembly micro_op = P^H A P, monotonicity over sweeps and exactness at maximal ranks are covered by model+correspondence+side check, not by theorems. Conditional on solvable micro systems (guesses within maximal TT ranks). Known findings F16/F16b (truncated MALS not monotone) are reported as KNOWN-FINDING.',
+   technique='Coq proof (Galerkin orthogonality; environment induction) + oracle-tape correspondence of the full solver', design='6 C07'),
 }
 NOT_YET = {}
 ALL = ['C%02d' % i for i in range(1, 21)]
